@@ -213,6 +213,9 @@ def c20_pairing(prog):
             except Exception as e:
                 probs.append(f"constructor raises {e!r}")
                 break
+            # typed classes force their own R/P defaults while being constructed; the property quantifies over every
+            # flag octet of the request object, so the octet is put back afterwards (as from_bytes does)
+            req.header.command_flags = flags
             before = (req.header.version, req.header.command_flags, req.header.command_code, req.header.application_id,
                       req.header.hop_by_hop_identifier, req.header.end_to_end_identifier)
             try:
